@@ -62,10 +62,6 @@ Proof. exact vtt_close_is_events. Qed.
 Print Assumptions C11_vtt_close_is_events.
 
 (* ---- non-vacuity ---- *)
-Definition ex_nodes : list node :=
-  [NStyle true (mkStyle true true false None); NText (lit "a b"); NBreak; NText (lit "c"); NStyle false (mkStyle true true false None);
-   NText (lit " d "); NStyle true (mkStyle false false true None); NStyle false (mkStyle false false true None)].
-
 Example C11_example_flat : flat_balanced ex_nodes = true.
 Proof. vm_compute. reflexivity. Qed.
 
